@@ -35,22 +35,49 @@ def _ilv_hash(spec):
     return hashlib.sha256(repr(seq).encode()).hexdigest()[:12]
 
 
+def _tenants(spec, workdir, make_oracles, want_ref):
+    """DataSims for the primary spec and for every other tenant of the same simulated process."""
+    sims = [engine_data.DataSim(spec, workdir + "/t0", oracles=make_oracles(), want_ref=want_ref,
+                                record_arrays=spec.get("record_arrays", False))]
+    for k, other in enumerate(spec.get("others") or [], 1):
+        o = dict(other)
+        for key in ("prop", "seed", "run", "pinned", "pin_seed", "ref_utc"):
+            o.setdefault(key, spec.get(key))
+        sims.append(engine_data.DataSim(o, workdir + "/t%d" % k, oracles=make_oracles(), want_ref=want_ref))
+    return sims
+
+
+def _schedule(rng, n_a, n_b):
+    sched = [0] * n_a + [1] * n_b
+    rng.shuffle(sched)
+    return sched
+
+
 # ---------------------------------------------------------------------------------- C18 (engine A)
 def c18_gen(seed, run, tier):
-    return gen_data.gen_spec("C18", seed, run, tier, gen_data.PROFILE_C18)
+    spec = gen_data.gen_spec("C18", seed, run, tier, gen_data.PROFILE_C18)
+    trng = prng.stream(seed, "C18", run, "tenant")
+    if trng.random() < 0.15:
+        # a second, unrelated dataset served by the same process, its requests interleaved with the first's
+        prof = dict(gen_data.PROFILE_C18, faults=["rng"], p_fault_kind=0.2)
+        other = gen_data.gen_spec("C18", seed, "%s-tenant1" % run, tier, prof)
+        spec["others"] = [{"world": other["world"], "config": other["config"], "ops": other["ops"][:12], "pre_ops": []}]
+        spec["schedule"] = _schedule(trng, len(spec["ops"]), len(spec["others"][0]["ops"]))
+    return spec
 
 
 def c18_execute(spec, workdir):
-    sim = engine_data.DataSim(spec, workdir, oracles=[oracle_c18.C18Oracle()], want_ref=True,
-                              record_arrays=spec.get("record_arrays", False))
-    res = sim.run()
+    sims = _tenants(spec, workdir, lambda: [oracle_c18.C18Oracle()], True)
+    res = engine_data.run_multi(sims, spec.get("schedule"))
     shutil.rmtree(workdir, ignore_errors=True)
-    res["mode"] = "pinned" if spec.get("pinned", True) else "unpinned"
+    res["mode"] = ("pinned" if spec.get("pinned", True) else "unpinned") + ("+tenant" if spec.get("others") else "")
+    if spec.get("others"):
+        res["stats"]["probe:multi_tenant_runs"] = 1
     if res["violation"] is not None and not spec.get("pinned", True):
         # classify: does the violation survive with the global RNG pinned?
         spec2 = dict(spec, pinned=True)
-        sim2 = engine_data.DataSim(spec2, workdir + "-p", oracles=[oracle_c18.C18Oracle()], want_ref=True)
-        res2 = sim2.run()
+        sims2 = _tenants(spec2, workdir + "-p", lambda: [oracle_c18.C18Oracle()], True)
+        res2 = engine_data.run_multi(sims2, spec.get("schedule"))
         shutil.rmtree(workdir + "-p", ignore_errors=True)
         if res2["violation"] is None:
             v = res["violation"]
@@ -58,7 +85,10 @@ def c18_execute(spec, workdir):
             d["unpinned_kind"] = v["kind"]
             res["violation"] = {"step": v["step"], "kind": "rng_dependent_result", "detail": d}
     if res["violation"] is not None:
-        res["violation"]["signature"] = oracle_c18.signature(spec, res["violation"])
+        vspec = spec
+        if res["violation"].get("tenant"):
+            vspec = dict(spec, world=spec["others"][res["violation"]["tenant"] - 1]["world"])
+        res["violation"]["signature"] = oracle_c18.signature(vspec, res["violation"])
     res["ilv"] = _ilv_hash(spec)
     st = res["stats"]
     # non-trivial: at least two requests reached the data layer and missed the request cache
@@ -209,11 +239,30 @@ def c11_gen(seed, run, tier):
         elif r < 0.80:
             ops.append({"op": "labels", "axis": orng.choice(["Time", "Year", "Month", "Week", "Day", "Location", "Lat", "Elev"])})
         elif r < 0.93:
-            ops.append({"op": "buckets", "instants": _instants(orng, 40),
+            inst = _instants(orng, 40)
+            # a second array with the same length, first and last element but another interior
+            inst_b = [inst[0]] + (_instants(orng, 60) + list(range(inst[0] + 1, inst[0] + 60)))[:max(len(inst) - 2, 0)] + [inst[-1]]
+            ops.append({"op": "buckets", "instants": inst, "instants_b": inst_b if len(inst_b) == len(inst) and len(inst) >= 3 else None,
                         "leadtimes": orng.sample([0.0, 6.0, 23.0, 23.75, 23.99, 24.0, 24.5, 47.5, 48.0, 71.99, 72.0, 240.0, 1e-3], 6)})
         else:
             n = 200 if tier == "quick" else 1500
             ops.append({"op": "conv", "start": orng.randrange(0, CONV_DAYS - n), "n": n})
+    # a sibling dataset in the same process: same number of times, same first and last time, other interior
+    trng = prng.stream(*parts, "tenant")
+    if len(world["universe"]["times"]) >= 3 and trng.random() < 0.35:
+        sib = W.sibling_times(world, trng)
+        if sib is not None:
+            ops_b = []
+            for _ in range(trng.randint(1, 4)):
+                r = trng.random()
+                if r < 0.7:
+                    ops_b.append({"op": "sweep", "axis": trng.choice(C11_AXES[:9]),
+                                  "fields": [["Obs"], ["Fcst"]], "input": trng.randrange(n_inputs)})
+                else:
+                    ops_b.append({"op": "labels", "axis": trng.choice(["Time", "Year", "Month", "Week", "Day"])})
+            cfg_b = {k: v for k, v in config.items() if k not in ("times", "dates", "tods")}
+            spec["others"] = [{"world": sib, "config": cfg_b, "ops": ops_b, "pre_ops": [], "mid_ops": []}]
+            spec["schedule"] = _schedule(trng, len(ops), len(ops_b))
     # the environment schedule: before loading, between loading and construction, between operations
     for _ in range(erng.randint(1, 4)):
         op = _env_op(erng)
@@ -229,10 +278,12 @@ def c11_gen(seed, run, tier):
 
 
 def c11_execute(spec, workdir):
-    sim = engine_data.DataSim(spec, workdir, oracles=[oracle_c11.C11Oracle()], want_ref=True)
-    res = sim.run()
+    sims = _tenants(spec, workdir, lambda: [oracle_c11.C11Oracle()], True)
+    res = engine_data.run_multi(sims, spec.get("schedule"))
     shutil.rmtree(workdir, ignore_errors=True)
-    res["mode"] = spec.get("kind", "session")
+    res["mode"] = spec.get("kind", "session") + ("+sibling" if spec.get("others") else "")
+    if spec.get("others"):
+        res["stats"]["probe:sibling_dataset_runs"] = 1
     if res["violation"] is not None:
         res["violation"]["signature"] = oracle_c11.signature(spec, res["violation"])
     res["ilv"] = _ilv_hash(spec)
@@ -361,7 +412,8 @@ PROPS = {
             "runs": {"quick": 3000, "thorough": 60000},
             "expected_probes": ["probe:sweeps_decoded", "probe:multi_slice_sweeps", "probe:jump_inside_sweep",
                                 "probe:label_checks", "probe:bucket_instants", "probe:conv_days",
-                                "probe:weighted_mean_checks", "tz_jump", "clock_jump"],
+                                "probe:weighted_mean_checks", "probe:sibling_dataset_runs", "probe:bucket_collision_arrays",
+                                "tz_jump", "clock_jump"],
             "rule": "one evaluation = one seeded simulated session on a world whose initialisation times cluster around "
                     "year/month/week/day boundaries, leap days and 1970-2100 extremes: sweeps over every slice of an axis "
                     "(partition, model buckets, weighted mean), single requests refined against a fresh dataset under UTC, "
